@@ -17,6 +17,8 @@ PROFILE = {
     "max_dur": 8,
     "max_delay_ticks": 32,
     "hostile_values": True,
+    "multi_call": (1, 2),
+    "attempt_timeout": 0.05,
 }
 
 
@@ -47,5 +49,5 @@ PROP = Property(
         "sinks), timeline and next_sleep_s report. Non-trivial = >= 2 granted retries of >= 2 classes, or a value that had to "
         "be sanitised or capped."
     ),
-    streams=[Stream("dataflow", check, strategy=C.with_entry(gen.retry_case(PROFILE), C.RETRY_ENTRIES), quick=14000, thorough=300000)],
+    streams=[Stream("dataflow", check, strategy=C.with_entry(gen.retry_case(PROFILE), C.WIDE_ENTRIES), quick=14000, thorough=300000)],
 )
